@@ -11,6 +11,22 @@ import (
 
 type pendingObl struct {
 	name, kind, goal, src, expect string
+	drop                          string // marker of a script line to leave out (the site's own abort assumption)
+}
+
+func scriptWithout(base, marker string) string {
+	if marker == "" {
+		return base
+	}
+	lines := strings.Split(base, "\n")
+	out := lines[:0:0]
+	for _, l := range lines {
+		if strings.HasSuffix(l, marker) {
+			continue
+		}
+		out = append(out, l)
+	}
+	return strings.Join(out, "\n")
 }
 
 func (fc *FnCtx) addObl(name, kind, negGoal, src string) {
@@ -90,6 +106,11 @@ func VerifyFunc(w *World, fn *ssa.Function, c *Contract, mode string) *FnResult 
 			env.vars[l.Name] = env.eval(l.E)
 		}
 		fc.lets = env.vars
+		for _, l := range c.Lets {
+			if v := env.vars[l.Name]; v.S == "Int" || v.S == "String" || v.S == "Bool" {
+				fc.modelVars = append(fc.modelVars, ModelVar{Name: "let " + l.Name, Term: v.T, Sort: v.S})
+			}
+		}
 		for _, r := range c.Requires {
 			fc.B.AssertNamed(fc.evalBool(env, r.E), "requires "+r.Src)
 		}
@@ -99,6 +120,11 @@ func VerifyFunc(w *World, fn *ssa.Function, c *Contract, mode string) *FnResult 
 		}
 	}
 	results, out, retCond := fr.exec(args, nil, st)
+	for i, r := range results {
+		if r.T != "" && !strings.Contains(r.S, "Array") {
+			fc.modelVars = append(fc.modelVars, ModelVar{Name: fmt.Sprintf("result%d", i), Term: r.T, Sort: r.S})
+		}
+	}
 	if c != nil && mode == "contract" {
 		env := fc.contractEnv(fn, args, results, &entry, &out)
 		env.pkgPath = c.PkgPath
@@ -108,7 +134,7 @@ func VerifyFunc(w *World, fn *ssa.Function, c *Contract, mode string) *FnResult 
 			}
 		}
 		for i, en := range c.Ensures {
-			g := fc.evalBool(env, en.E)
+			g := fc.evalGoal(env, en.E)
 			fc.addObl("#ens."+clauseName(en, i), "body", and(retCond, not(g)), en.Src)
 		}
 		// frame: worlds other than those named in modifies are unchanged
@@ -126,7 +152,7 @@ func VerifyFunc(w *World, fn *ssa.Function, c *Contract, mode string) *FnResult 
 	base := fc.B.Script()
 	for _, p := range fc.pending {
 		o := &Obl{Name: qn + p.name, Kind: p.kind, Expect: p.expect, Src: p.src, Fn: qn, ModelVars: fc.modelVars}
-		o.Script = base + "(assert " + p.goal + ")\n(check-sat)\n"
+		o.Script = scriptWithout(base, p.drop) + "(assert " + p.goal + ")\n(check-sat)\n"
 		res.Obls = append(res.Obls, o)
 		if rs, ok := restrictGlobal[o.Name]; ok && c != nil {
 			if re, err := ParseExpr(rs); err == nil {
@@ -159,6 +185,34 @@ func VerifyFunc(w *World, fn *ssa.Function, c *Contract, mode string) *FnResult 
 	return res
 }
 
+// evalGoal evaluates a formula in goal position: leading universal quantifiers are skolemised
+// (fresh constants), which keeps the library axioms ground.
+func (fc *FnCtx) evalGoal(env *Env, e Expr) string {
+	var bound []string
+	for {
+		q, ok := e.(*EQuant)
+		if !ok || !q.Forall {
+			break
+		}
+		for _, v := range q.Vars {
+			s, t := env.typeByName(v.Type)
+			c := fc.B.Fresh("sk_"+v.Name, s)
+			val := Val{S: s, T: c, Typ: t}
+			if t != nil {
+				fc.assumeWF(val, "true")
+			}
+			env.vars[v.Name] = val
+			bound = append(bound, v.Name)
+		}
+		e = q.Body
+	}
+	g := fc.evalBool(env, e)
+	for _, b := range bound {
+		delete(env.vars, b)
+	}
+	return g
+}
+
 func uniq(in []string) []string {
 	seen := map[string]bool{}
 	var out []string
@@ -173,7 +227,7 @@ func uniq(in []string) []string {
 
 func (fc *FnCtx) safetyObls() {
 	for i, s := range fc.safetySites {
-		fc.addObl(fmt.Sprintf("#safe.%s.%d", s.kind, i+1), "safety", s.cond, s.kind+" at "+s.pos)
+		fc.pending = append(fc.pending, pendingObl{name: fmt.Sprintf("#safe.%s.%d", s.kind, i+1), kind: "safety", goal: s.cond, src: s.kind + " at " + s.pos, expect: "unsat", drop: fmt.Sprintf(";;abort:%d;", i+1)})
 	}
 	n := 0
 	for _, p := range fc.panicSites {
